@@ -26,12 +26,12 @@ def _stub(name):
     return stub
 
 
-def leaves(ctx, state, fire):
-    key = f"c04:{state}:{fire}"
+def leaves(ctx, state, fire, skip=True):
+    key = f"c04:{state}:{fire}:{skip}"
     if key not in ctx.cache:
         I = Interp(ctx.index, recv_config(extra_stubs={"_core:WebSocket.send_close": _stub("send_close"),
                                                        "_core:WebSocket.pong": _stub("pong")}))
-        outs = explore_recv(ctx, I, "recv_data_frame", state, fire=TRUE if fire else FALSE, skip=TRUE,
+        outs = explore_recv(ctx, I, "recv_data_frame", state, fire=TRUE if fire else FALSE, skip=TRUE if skip else FALSE,
                             control_frame=FALSE)
         ctx.cache[key] = (I, outs)
     return ctx.cache[key]
@@ -222,3 +222,35 @@ def r5(ctx):
     for o in ctx.count_paths(I2.explore(body2)):
         ok = o.kind == "return" and isinstance(o.value, Tup) and o.value.items == (Sym("op", "int"), Sym("fd", "bytes"))
         ctx.ob("_core:WebSocket.recv_data:returns-opcode-and-payload", ok, f"returns {o.value!r}", ctx.index.loc(ctx.index.func("_core:WebSocket.recv_data").node))
+
+
+@rule("R-C04-6", min_instances=2, title="with validation on: a final text fragment is delivered iff the *reassembled* payload validates (fragments never rejected on their own)")
+def r6(ctx):
+    loc = ctx.index.loc(ctx.index.func("_abnf:continuous_frame.extract").node)
+    for state in ("idle", "text"):
+        I, outs = leaves(ctx, state, False, skip=False)
+        op_final = 1 if state == "idle" else 0
+        n = 0
+        for o in outs:
+            d = frame_dims(I, o)
+            if d is None or o.kind == "cutoff":
+                continue
+            op, fin = d["opcode"], d["fin"]
+            if not (op.lo == op.hi == op_final and fin.lo == fin.hi == 1) or d["rsv1"].lo or d["rsv2"].lo or d["rsv3"].lo:
+                continue
+            own = _payload_before_add(o)
+            whole = concat([ACC, own], "bytes") if state != "idle" else own
+            v = [e for e in o.effects if e.name == "validate_utf8"]
+            f = o.run.facts.get(Sym("utf8ok", "bool").key())
+            n += 1
+            if o.kind == "return":
+                ok = len(v) == 1 and v[0].args[0].key() == whole.key() and f is not None and f.truth is True
+                ctx.ob(f"{Q}:{state}:validation-on:delivered:{n}", ok, "delivered after validate_utf8(acc ++ payload) was truthy" if ok else
+                       f"a text message is delivered after validating {[repr(e.args[0]) for e in v]} instead of the reassembled payload {whole!r}", loc, {"path": path_text(o)})
+            elif o.kind == "raise":
+                ok = len(v) == 1 and v[0].args[0].key() == whole.key() and f is not None and f.truth is False
+                ctx.ob(f"{Q}:{state}:validation-on:rejected:{n}", ok, "rejected only because validate_utf8(acc ++ payload) was falsy" if ok else
+                       f"a text message is rejected on the validity of {[repr(e.args[0]) for e in v]}, not of the reassembled payload {whole!r}: a valid message whose code point straddles a fragment boundary is lost",
+                       o.raise_loc or loc, {"path": path_text(o)})
+        if n == 0:
+            raise AnalysisError(f"state {state}: no final text fragment path with validation on")
